@@ -478,6 +478,60 @@ func (h *harness) exhaustive() {
 	run.SetExhaustive(allComplete)
 }
 
+const obArgs = "field arguments: every execution of a field node gets the literal arguments of the node and the defaults of its own object type — one node executed for two implementations of an interface, every async subset × every schedule (engine/args.go)"
+
+type argsCase struct {
+	Doc      string   `json:"doc"`
+	Async    []string `json:"async"`
+	Schedule []uint64 `json:"schedule"`
+}
+
+// argsFamily runs the fixed family of engine/args.go.
+func (h *harness) argsFamily() {
+	failed := 0
+	complete, err := engine.ArgsFamily(h.run.Scale(3000, 100000), func(d engine.ArgsDoc, async []string, sched []uint64, o *engine.Observed, fail string) {
+		ac := argsCase{Doc: d.Doc, Async: async, Schedule: sched}
+		b, _ := json.Marshal(ac)
+		h.run.Case("args:"+string(b), o.Promises >= 2)
+		h.run.Count("args family")
+		h.run.Oblige(obArgs, "oracle", 1, fail == "", fail)
+		if fail != "" {
+			failed++
+			if failed <= 3 {
+				h.run.Violate("property", fmt.Sprintf("args: %s  [document %s, answering through promises: %v, schedule %v]", fail, d.Doc, async, sched), "", false,
+					map[string]any{"level": "args", "case": ac, "what": fail, "implementation": o.Line(false)})
+			}
+		}
+	})
+	if err != nil {
+		h.run.Oblige("harness self-consistency (generated schema/document accepted)", "oracle", 1, false, "args family: "+err.Error())
+	}
+	h.run.Note("argument-defaults family: %d documents × all async subsets of the positions they reach × all schedules (complete=%v)", len(engine.ArgsDocs), complete)
+}
+
+func (h *harness) replayArgs(raw json.RawMessage) {
+	var ac argsCase
+	if err := json.Unmarshal(raw, &ac); err != nil {
+		fmt.Fprintln(os.Stderr, err)
+		os.Exit(2)
+	}
+	o, err := engine.ArgsRun(ac.Doc, ac.Async, ac.Schedule)
+	if err != nil {
+		fmt.Fprintln(os.Stderr, err)
+		os.Exit(2)
+	}
+	want := ""
+	for _, d := range engine.ArgsDocs {
+		if d.Doc == ac.Doc {
+			want = engine.ArgsCheck(d, o)
+		}
+	}
+	fmt.Printf("document:       %s\nanswering through promises: %v  schedule: %v\nimplementation: %s\nverdict:        %s\n", ac.Doc, ac.Async, ac.Schedule, o.Line(false), want)
+	if want != "" {
+		h.run.Violate("property", "args: "+want, "", false, map[string]any{"level": "args", "case": ac})
+	}
+}
+
 // wide runs the deterministic wide-selection-set requests (engine.WideCases), as query and as
 // mutation.
 func (h *harness) wide() {
@@ -565,7 +619,9 @@ func main() {
 			fmt.Fprintln(os.Stderr, err)
 			os.Exit(2)
 		}
-		if rp.Level == "combinator" {
+		if rp.Level == "args" {
+			h.replayArgs(rp.Case)
+		} else if rp.Level == "combinator" {
 			var cc CombCase
 			if err := json.Unmarshal(rp.Case, &cc); err != nil {
 				fmt.Fprintln(os.Stderr, err)
@@ -626,6 +682,7 @@ func main() {
 
 	h.combinators()
 	h.exhaustive()
+	h.argsFamily()
 	h.wide()
 	h.random()
 	run.Finish(h.model)
